@@ -32,6 +32,9 @@ def run(ctx):
     cases = list(VHM_FIXED) + [vhm_model_program(rng, iterators=False) for _ in range(8 if thorough else 4)]
     st = vhm_correspondence(ctx, 'vhm', Hgc, cases, 8 if thorough else 5, 'vyukov_hash_map bucket')
     tie = tie_broken_sig(st, 'vhm')
+    # erase(iterator) is a writer of the map too: the one-bucket model with iterators (C11) is tied here as well
+    sti = vhm_correspondence(ctx, 'vhmit', Hgc, list(VHMIT_FIXED) + [vhm_model_program(rng, iterators=True) for _ in range(2)], 4, 'vyukov_hash_map bucket + iterators')
+    tie = tie or tie_broken_sig(sti, 'vhmit')
     # ---- tie: the multi-bucket model with grow (Model/VhmGrowDefs.v; capacities 1/2/4, no extension buckets, any number of grows)
     gcases = list(VHMGROW_FIXED) + [vhmgrow_model_program(rng) for _ in range(8 if thorough else 4)]
     stg = do_correspondence(ctx, 'vhmgrow', Hgc, gcases, 8 if thorough else 5, 'vyukov_hash_map grow')
@@ -58,6 +61,12 @@ def run(ctx):
                 r2 = ['get %d' % rng.choice(rem), 'get %d' % rng.choice(others)]
                 jobs.append(({'mode': mode, 'cap': '64', 'hash': 'const', 'init': '1.2.3.4.5.6'}, [w, r1, r2], 'dfs', n, ctx['seed'] + k, ('--pb', '2')))
             jobs.append(({'mode': mode, 'cap': '64', 'hash': 'const', 'init': '1.2.3.4.5.6'}, [['ext 6', 'del 5'], ['get 4', 'get 4'], ['get 5', 'get 4']], 'dfs', n, ctx['seed'], ('--pb', '2')))
+            # the version rule across an iterator: erase(iterator) of an array item backed by an extension item bumps the version twice while
+            # the iterator holds the lock; the state the iterator writes back on release must not take the version backwards (a later +1
+            # removal would restore the version a paused reader started with): reader paused inside its array scan across release, removal
+            # that relocates its key into a scanned slot, and an insertion that reuses the vacated slot
+            jobs.append(({'mode': mode, 'cap': '128', 'hash': 'const', 'init': '1.2.3.4'}, [['itf 1', 'ite', 'itr', 'del 2', 'ins 6 60'], ['get 3']], 'dfs', 5000, ctx['seed'], ('--pb', '2')))
+            jobs.append(({'mode': mode, 'cap': '128', 'hash': 'const', 'init': '1.2.3.4.5'}, [['itf 2', 'ite', 'itn', 'itr', 'del 1', 'ins 6 60'], ['get 3', 'get 5']], 'dfs', 5000, ctx['seed'], ('--pb', '2')))
             # grow of a block WITH extension items: 128 buckets own 10 extension items; a bucket holding 3 + 10 keys grows on the 14th key and
             # its whole chain is re-created in the doubled block (several items landing in one new bucket, behind a full array).  const: all in
             # one bucket; mod2: two chains, merged/split by the doubled mask.  Lock-free readers run across the migration.
